@@ -179,6 +179,68 @@ fn cubic(input: &[V]) -> Vec<V> {
     drive(&mut cc, &input[1..], &cubic_row, ())
 }
 
+fn num(text: Option<&str>) -> V {
+    text.and_then(|t| t.parse::<u128>().ok()).map(|v| v as V).unwrap_or(-1)
+}
+
+/// BBR row (13 values): congestion_window(), bytes_in_flight(), is_congestion_limited(),
+/// requires_fast_retransmission(), state kind (0 Startup, 1 Drain, 2 ProbeBw Down, 3 Cruise,
+/// 4 Refill, 5 Up, 6 ProbeRtt), filled_pipe, prior_cwnd, inflight_hi, inflight_lo,
+/// delivered_bytes, lost_bytes, app limited, recovery (0 Recovered, 1 Recovering idle,
+/// 2 Recovering requiring a transmission).  Private fields come from the Debug rendering (-1 unknown).
+fn bbr_row(cc: &BbrCongestionController) -> Vec<V> {
+    let dbg = format!("{cc:?}");
+    let st = match field(&dbg, "state") {
+        Some("Startup") => 0,
+        Some("Drain") => 1,
+        Some(s) if s.starts_with("ProbeRtt(") => 6,
+        Some(s) if s.starts_with("ProbeBw(") => {
+            let inner = &s["ProbeBw(".len()..s.len() - 1];
+            match field(inner, "cycle_phase") {
+                Some("Down") => 2,
+                Some("Cruise") => 3,
+                Some("Refill") => 4,
+                Some("Up") => 5,
+                _ => -1,
+            }
+        }
+        _ => -1,
+    };
+    let b = |t: Option<&str>| match t {
+        Some("true") => 1,
+        Some("false") => 0,
+        _ => -1,
+    };
+    let dv = field(&dbg, "data_volume_model");
+    let bw = field(&dbg, "bw_estimator");
+    let rec = match field(&dbg, "recovery_state") {
+        Some("Recovered") => 0,
+        Some(s) if s.starts_with("Recovering(") && s.ends_with("RequiresTransmission)") => 2,
+        Some(s) if s.starts_with("Recovering(") && s.ends_with("Idle)") => 1,
+        _ => -1,
+    };
+    let app = match bw.and_then(|t| field(t, "app_limited_delivered_bytes")) {
+        Some("None") => 0,
+        Some(s) if s.starts_with("Some(") => 1,
+        _ => -1,
+    };
+    vec![
+        cc.congestion_window() as V,
+        cc.bytes_in_flight() as V,
+        cc.is_congestion_limited() as V,
+        cc.requires_fast_retransmission() as V,
+        st,
+        b(field(&dbg, "full_pipe_estimator").and_then(|t| field(t, "filled_pipe"))),
+        num(field(&dbg, "prior_cwnd")),
+        num(dv.and_then(|t| field(t, "inflight_hi"))),
+        num(dv.and_then(|t| field(t, "inflight_lo"))),
+        num(bw.and_then(|t| field(t, "delivered_bytes"))),
+        num(bw.and_then(|t| field(t, "lost_bytes"))),
+        app,
+        rec,
+    ]
+}
+
 /// BBR: same case format.  The PacketInfo and send time handed to on_ack / on_packet_lost are
 /// those of a real outstanding packet: bytes are removed from the oldest outstanding packets
 /// first and the last packet touched is "the newest acknowledged" one (field b of an ack is not used).
@@ -196,9 +258,7 @@ fn bbr(input: &[V]) -> Vec<V> {
     type Info = <BbrCongestionController as CongestionController>::PacketInfo;
     let mut queue: std::collections::VecDeque<(u64, u64, Info)> = Default::default(); // bytes left, sent time, info
     let mut last: Option<(u64, Info)> = None;
-    let row = |cc: &BbrCongestionController| {
-        vec![cc.congestion_window() as V, cc.bytes_in_flight() as V, cc.is_congestion_limited() as V]
-    };
+    let row = bbr_row;
     // removes `n` bytes from the oldest packets; returns the last packet touched
     fn take(queue: &mut std::collections::VecDeque<(u64, u64, Info)>, mut n: u64) -> Option<(u64, Info)> {
         let mut hit = None;
